@@ -1,5 +1,5 @@
 import Eru.CpuMem.ProofsFloat
-import Eru.CpuMem.Spec
+import Eru.CpuMem.ProofsSpec
 /-
 C05 — CPU-bound instances receive exactly the CPU amount requested.
 Property theorems only; helper lemmas live in Eru/CpuMem/Proofs*.lean.
@@ -26,6 +26,48 @@ theorem pieces_truncation_counterexample :
 /-- one rounding of the software binary64 has relative error at most 2⁻⁵³ -/
 theorem round_relative_error (a b : Nat) (ha : 0 < a) (hb : 0 < b) :
     |(roundRat a b).toRat - (a : ℚ) / b| * 2 ^ 53 ≤ (a : ℚ) / b := roundRat_spec a b ha hb
+
+/-- **plan_shape**: every plan returned by `GetCPUPlans` (any node with map-like maps, share base ≥ 1,
+    any max-share, affinity map and NUMA order) consists of `pieces / B` distinct cores at a full
+    share `B` plus — iff `pieces % B ≠ 0` — exactly one more core carrying the remainder, and its
+    pieces total exactly `pieces = int(math.Round(cpuRequest·B))` (decidable clause `planShape`). -/
+theorem plan_shape (info : NodeInfo) (origin : CpuMap) (B maxShare : Int) (req : Req)
+    (order : List String) (ps : List CpuPlan) (hB : 1 ≤ B)
+    (hck : info.cap.cpuMap.keys.Nodup) (hnk : (info.cap.numa.map (·.1)).Nodup) (hord : order.Nodup)
+    (h : getCPUPlans info origin B maxShare req order = .ok ps) :
+    ∀ pl ∈ ps, planShape B (piecesRequest req B) pl.cpuMap = true ∧ planTotal pl.cpuMap = piecesRequest req B := by
+  obtain ⟨ps', h', _, hok⟩ := getCPUPlans_spec info origin B hB maxShare req order hord hnk hck
+  rw [h] at h'; cases h'
+  intro pl hpl
+  obtain ⟨⟨ids, hform⟩, _⟩ := hok pl hpl
+  have hpn := piecesRequest_nonneg req B
+  rcases Int.lt_or_le 0 (piecesRequest req B) with hpos | hle
+  · exact planShape_of_form B hB _ hpos ids pl.cpuMap hform
+  · -- zero pieces: there are no plans at all, so this case is void; derive it from the form
+    have hz : piecesRequest req B = 0 := by omega
+    rw [hz] at hform ⊢
+    obtain ⟨picked, tail, e, hl, ht, hn, _⟩ := hform
+    simp only [Int.zero_tdiv, Int.toNat_zero, Int.zero_tmod] at hl ht
+    have hp0 : picked = [] := List.eq_nil_of_length_eq_zero hl
+    rcases ht with ⟨_, rfl⟩ | ⟨hne, _⟩
+    · subst hp0
+      simp only [List.map_nil, List.append_nil] at e
+      rw [e]; simp [planShape, planTotal, Plan.keys]
+    · exact absurd rfl hne
+
+/-- **recorded_agrees** (with `pieces_exact`): a request of `k` pieces at share base `B` is given plans
+    of exactly `k` pieces, i.e. the recorded CPU request `k/B` times `B` equals the pieces handed out. -/
+theorem recorded_agrees (info : NodeInfo) (origin : CpuMap) (B : Nat) (maxShare : Int) (k : Nat) (mem : Int)
+    (order : List String) (ps : List CpuPlan) (hB : 1 ≤ B) (hk : 1 ≤ k) (hk2 : k ≤ 2 ^ 50)
+    (hck : info.cap.cpuMap.keys.Nodup) (hnk : (info.cap.numa.map (·.1)).Nodup) (hord : order.Nodup)
+    (h : getCPUPlans info origin B maxShare { bind := true, cpuNum := k, cpuDen := B, mem := mem } order = .ok ps) :
+    ∀ pl ∈ ps, planTotal pl.cpuMap = k := by
+  intro pl hpl
+  have := (plan_shape info origin B maxShare _ order ps (by omega) hck hnk hord h pl hpl).2
+  rw [this]
+  unfold piecesRequest
+  simp only [Int.toNat_natCast]
+  rw [piecesRound_exact k B hk hk2 hB]
 
 /-- every fragment plan is one core carrying exactly `fragment` pieces -/
 theorem fragment_plan_shape (cores : List Core) (fragment : Int) (p : CpuMap)
